@@ -107,7 +107,7 @@ def gen(rng, tier):
             'classes': sorted(classes), 'nthread': nthread,
             'npartition': None if rng.random() < 0.7 else rng.randrange(1, max(2, shape[0] // 3 + 1)),
             'coord': rng.choice([0, 0, 1, 2]), 'sort': rng.random() < 0.25, 'accumulate': rng.random() < 0.3, 'gseed': rng.randrange(1 << 20),
-            'sched': gen_sched(rng), 'poison': rng.choice(['A', 'B'])}
+            'sched': gen_sched(rng), 'poison': rng.choice(['A', 'B']), 'repeat': rng.random() < 0.3}
 
 
 def sweep(tier):
@@ -153,7 +153,7 @@ def sweep(tier):
                            'classes': ['boundary-product'], 'nthread': [1, 2, 3, 4, 8, 16][k % 6], 'npartition': None,
                            'coord': k % 3, 'sort': k % 5 == 0, 'accumulate': k % 4 == 1, 'gseed': k,
                            'sched': {'policy': ['static', 'cyclic', 'dynamic'][k % 3], 'strategy': 'random', 'p_switch': 0.2,
-                                     'pct_depth': 2, 'seed': k}, 'poison': 'AB'[k % 2]}
+                                     'pct_depth': 2, 'seed': k}, 'poison': 'AB'[k % 2], 'repeat': k % 7 == 3}
 
 
 def _touch(pos, shape, box, weights, offset, reach):
@@ -235,12 +235,34 @@ def run(case):
         from abx_sim.analysis import tsc
         s = case['sched']
 
+        repeat = bool(case.get('repeat'))
+        pexp = pos.copy()
+        for _ in range((2 if repeat else 1) if case['wrap'] else 0):
+            pexp[pexp >= ft(box)] -= ft(box)      # the documented wrap is a single period per call
+            pexp[pexp < 0] += ft(box)
+        modified = []
+
         def call(mod, nthread, npart):
             grid = g0.copy()
-            r = mod.tsc_parallel(pos.copy(), grid, box, weights=None if weights is None else weights.copy(),
-                                 nthread=nthread, wrap=case['wrap'], npartition=npart, coord=case['coord'],
-                                 sort=case.get('sort', False), offset=offset)
+            p, w = pos.copy(), None if weights is None else weights.copy()
+            r = mod.tsc_parallel(p, grid, box, weights=w, nthread=nthread, wrap=case['wrap'], npartition=npart,
+                                 coord=case['coord'], sort=case.get('sort', False), offset=offset)
+            if repeat:
+                # the caller's arrays again, accumulating into the grid of the first call (what interlacing and
+                # multi-tracer painting do): apart from the documented in-place wrap they must be as they were
+                r = mod.tsc_parallel(p, r, box, weights=w, nthread=nthread, wrap=case['wrap'], npartition=npart,
+                                     coord=case['coord'], sort=case.get('sort', False), offset=offset)
+            if not case.get('sort', False):
+                # (the wrap itself may round differently in compiled code, which subtracts a float64 box: a few ulp)
+                dp = np.abs(np.asarray(p, dtype=np.float64) - pexp.astype(np.float64))
+                if (dp.size and dp.max() > 8 * float(np.finfo(ft).eps) * box) or (w is not None and np.asarray(w).tobytes() != weights.tobytes()):
+                    modified.append(True)
             return r
+        if repeat:
+            ref = ref + (ref - g0.astype(np.float64))
+            tolgrid = 2 * tolgrid
+            sumw = 2 * sumw
+            bump(out['probes'], 'same-arrays-painted-twice')
         res, exc, summ = H.run(lambda: call(tsc, case['nthread'], case['npartition']), s, poison=case['poison'])
         out['steps'] = summ['steps']
         bump(out['faults'], 'policy=' + s.get('policy', 'static'))
@@ -256,12 +278,17 @@ def run(case):
             violation(out, 'raises:' + type(exc).__name__, 'tsc_parallel[sim]', repr(exc)[:300])
         else:
             _check(out, 'tsc_parallel[sim]', case, res, ref, g0.astype(np.float64), tolgrid, sumw)
+            if modified and not out['violations']:
+                violation(out, 'caller-arrays-modified', 'tsc_parallel[sim]', 'positions / weights differ from what was passed (beyond the documented wrap)')
             out['events'].append(['sim', list(shape), round(float(np.asarray(res, dtype=np.float64).sum()), 4), summ['regions']])
         # compiled, single thread
         from abacusnbody.analysis import tsc as rtsc
         try:
+            del modified[:]
             got = call(rtsc, 1, None)
             _check(out, 'tsc_parallel[compiled,nthread=1]', case, got, ref, g0.astype(np.float64), tolgrid, sumw)
+            if modified and not out['violations']:
+                violation(out, 'caller-arrays-modified', 'tsc_parallel[compiled,nthread=1]', 'positions / weights differ from what was passed (beyond the documented wrap)')
             if res is not None and exc is None:
                 ok, dmax = H.close(res, got, atol=float(tolgrid.max()) * 2)
                 if not ok and not out['violations']:
@@ -300,6 +327,8 @@ def shrink(case):
         yield dict(c, weights=None)
     if case['accumulate']:
         yield dict(c, accumulate=False)
+    if case.get('repeat'):
+        yield dict(c, repeat=False)
     if case['wrap']:
         yield dict(c, wrap=False)
     if case['nthread'] != 1:
